@@ -171,15 +171,13 @@ def main():
     chx.run_into(rep, 'c11', per_condition_timeout=300 if quick else 1500)
     n = 0
     for r in pmap(enum_task, [dict(i=i) for i in range(14)], limit=900):
-        for v in r.get('violations', []):
-            rep.violation(v)
+        rep.absorb(r)
         n += r.get('n', 0)
     rep.cov['exhaustive_enumeration_cases'] = n
     rep.cov['exhaustive'] = True
     nd = 0
     for r in pmap(deep_task, [dict(seed=rep.seed * 100 + i, n=300 if quick else 3000) for i in range(16)], limit=900):
-        for v in r.get('violations', []):
-            rep.violation(v)
+        rep.absorb(r)
         nd += r.get('n', 0)
     rep.counts['evaluations'] += n + nd
     rep.cov['deep_trees_through_text'] = nd
